@@ -5,6 +5,7 @@ package main
 
 import (
 	"encoding/json"
+	"fmt"
 	"io"
 
 	"github.com/spf13/pflag"
@@ -41,8 +42,24 @@ func runPflagParse(raw json.RawMessage) interface{} {
 			fs.StringP(f.Name, f.Short, "", "")
 		}
 	}
+	for _, f := range in.Flags {
+		if f.Nargs != 0 {
+			fs.Lookup(f.Name).Nargs = f.Nargs
+		}
+		if f.Delim != "" {
+			fs.Lookup(f.Name).OptargDelimiter = []rune(f.Delim)[0]
+		}
+	}
 	out := map[string]interface{}{}
-	err := fs.Parse(in.Args)
+	var err error
+	func() {
+		defer func() {
+			if p := recover(); p != nil {
+				err = fmt.Errorf("panic: %v", p)
+			}
+		}()
+		err = fs.Parse(in.Args)
+	}()
 	if err != nil {
 		out["err"] = err.Error()
 		return out
@@ -68,6 +85,17 @@ func genPflagParse(r *rng, tier string) interface{} {
 		in.Flags[i].Persistent, in.Flags[i].Mutex, in.Flags[i].Hidden, in.Flags[i].Deprecated, in.Flags[i].ShortDepr = false, nil, false, false, false
 	}
 	one := treeSpec{Cmds: []cmdSpec{{Name: "root", Parent: -1, Interspersed: in.Interspersed, Flags: in.Flags}}}
+	if r.chance(20) {
+		// the fork's features: several words per flag, custom delimiters
+		pi := genParseFork(r, one)
+		in.Flags = pi.Tree.Cmds[0].Flags
+		in.Interspersed = pi.Tree.Cmds[0].Interspersed
+		in.Args = pi.Words
+		if r.chance(50) {
+			in.Args = append(in.Args, pick(r, []string{"tail", "-y", "--", "--color", "-"}))
+		}
+		return in
+	}
 	in.Args = genLine(r, one)
 	if r.chance(30) {
 		in.Args = append(in.Args, pick(r, []string{"--", "-", "x", "--unknown", "-z", "--help", "-h", "-=", "--=", "---", "--a=b=c"}))
